@@ -396,6 +396,52 @@ Definition accepts_local (r : role) (tr : list label) : bool := accepts_from r 0
 Definition roles : list role := [R_RD; R_RC; R_CW; R_MW; R_SS].
 Definition accepted_by_some_role (tr : list label) : bool := existsb (fun r => accepts_local r tr) roles.
 
+(* ---------- the labels a goroutine logs when it takes a step: ties the automata above to step
+   (Proofs: local_traces_accepted). The streamer's only label is ss.send, its automaton accepts ss.send*. *)
+Definition owner (c : cfg) (t : tid) : option role :=
+  match t with
+  | T_RD | T_RDc => Some R_RD | T_RC | T_RCc => Some R_RC
+  | T_W | T_Wc => if is_matrix c then Some R_MW else Some R_CW
+  | _ => None
+  end.
+Definition role_eqb (a b : role) : bool :=
+  match a, b with R_RD, R_RD | R_RC, R_RC | R_CW, R_CW | R_MW, R_MW | R_SS, R_SS => true | _, _ => false end.
+Definition emits (c : cfg) (s : state) (t : tid) : list label :=
+  match t with
+  | T_RD => match rd s with
+            | RD_read => match docs s with _ :: _ => [L_rd_send] | [] => [L_rd_readend] end
+            | RD_add _ => [L_add; L_rd_added] | _ => [] end
+  | T_RDc => [L_rd_cancelled]
+  | T_RC => match rc s with
+            | RC_recv => match rd s with
+                         | RD_send (GoodChunk _) => [L_rc_recv; L_rc_send]
+                         | RD_send _ => [L_rc_recv] | _ => [] end
+            | RC_add _ => [L_add; L_rc_added] | _ => [] end
+  | T_RCc => [L_rc_cancelled]
+  | T_W => match w s with
+           | W_next => match pipe s with
+                       | _ :: _ => if is_matrix c then [L_mw_chunk; L_mw_send] else [L_cw_chunk]
+                       | [] => if is_matrix c then [] else [L_cw_done] end
+           | W_snext => match oq s with S _ => [L_cw_send] | O => [] end
+           | W_sadd | W_abort | W_addc => [L_add]
+           | _ => [] end
+  | T_Wc => if is_matrix c then [L_mw_aborted] else [L_cw_aborted]
+  | _ => []
+  end.
+(* the label sequence goroutine r logs along a run *)
+Fixpoint ltrace (c : cfg) (r : role) (s : state) (sched : list tid) : list label :=
+  match sched with
+  | [] => []
+  | t :: rest =>
+      match step c s t with
+      | Some s' => (match owner c t with
+                    | Some r' => if role_eqb r r' then emits c s t else []
+                    | None => [] end) ++ ltrace c r s' rest
+      | None => []
+      end
+  end.
+
+
 (* ---------- oracles: the properties stated on observations made through the public API *)
 (* C05: obs = the three Err() observations of one run (None = not observed; Some true = non-nil):
    while a goroutine was still held, after the consumer finished, and a little later *)
